@@ -5,6 +5,7 @@ mod exec3;
 mod exec4;
 mod exec5;
 mod exec6;
+mod exec7;
 mod gen_paserk;
 mod gen_tok;
 mod gen_claims;
@@ -47,6 +48,9 @@ fn main() {
                 "c02" => gen_tok::gen_c02(&mut out, seed, thorough),
                 "c03" => gen_tok::gen_c03(&mut out, seed, thorough),
                 "c04" => gen_paserk::gen_c04(&mut out, seed, thorough),
+                "c16" => gen_paserk::gen_c16(&mut out, seed, thorough, false),
+                "c16rng" => gen_paserk::gen_c16(&mut out, seed, thorough, true),
+                "c17" => gen_paserk::gen_c17(&mut out, seed, thorough),
                 "c05" => gen_paserk::gen_c05(&mut out, seed, thorough),
                 "c06" => gen_paserk::gen_c06(&mut out, seed, thorough),
                 "c07" => gen_paserk::gen_c07(&mut out, seed, thorough),
